@@ -9,6 +9,7 @@
           of every CallOp are Go maps, i.e. `WF`), preserved by CloneWith; `run_wf_inv`.
 -/
 import YtkProofs.Pipeline
+import YtkProofs.Merge
 
 namespace Ytk
 
@@ -642,5 +643,86 @@ theorem run_wf_inv : ∀ (n : Nat) (t : Task) (st : St), t.LitWF → StWF st →
           rcases AMap.mem_insert hp with rfl | hp
           · exact ht'
           · exact hs.2 p hp
+
+/-! ## Boolean checkers (for concrete programs) -/
+
+mutual
+def Op.litWFb : Op → Bool
+  | .set none _ _ => true
+  | .set (some n) _ _ => wfb n
+  | .template _ _ _ _ => true
+  | .log _ => true
+  | .abort _ => true
+  | .ext _ _ _ => true
+  | .forEach _ _ _ b => b.litWFb
+  | .loop i _ b p => optLitWFb i && b.litWFb && optLitWFb p
+  | .call _ _ args => wfb args
+  | .define _ b => b.litWFb
+def Action.litWFb : Action → Bool
+  | .mk _ _ _ ops cs => opsLitWFb ops && actsLitWFb cs
+def optLitWFb : Option Action → Bool
+  | none => true
+  | some a => a.litWFb
+def opsLitWFb : List Op → Bool
+  | [] => true
+  | o :: os => o.litWFb && opsLitWFb os
+def actsLitWFb : List Action → Bool
+  | [] => true
+  | a :: as => a.litWFb && actsLitWFb as
+end
+
+mutual
+theorem Op.litWF_of_b : ∀ (o : Op), o.litWFb = true → o.LitWF
+  | .set none _ _, _ => by simp [Op.LitWF]
+  | .set (some n) _ _, h => by
+    simp only [Op.litWFb] at h
+    simp only [Op.LitWF]
+    intro m hm
+    cases hm
+    exact wf_of_wfb _ h
+  | .template _ _ _ _, _ => by simp [Op.LitWF]
+  | .log _, _ => by simp [Op.LitWF]
+  | .abort _, _ => by simp [Op.LitWF]
+  | .ext _ _ _, _ => by simp [Op.LitWF]
+  | .forEach _ _ _ b, h => by
+    simp only [Op.litWFb] at h
+    simp only [Op.LitWF]
+    exact Action.litWF_of_b b h
+  | .loop i _ b p, h => by
+    simp only [Op.litWFb, Bool.and_eq_true] at h
+    simp only [Op.LitWF]
+    exact ⟨optLitWF_of_b i h.1.1, Action.litWF_of_b b h.1.2, optLitWF_of_b p h.2⟩
+  | .call _ _ args, h => by
+    simp only [Op.litWFb] at h
+    simp only [Op.LitWF]
+    exact wf_of_wfb _ h
+  | .define _ b, h => by
+    simp only [Op.litWFb] at h
+    simp only [Op.LitWF]
+    exact Action.litWF_of_b b h
+theorem Action.litWF_of_b : ∀ (a : Action), a.litWFb = true → a.LitWF
+  | .mk _ _ _ ops cs, h => by
+    simp only [Action.litWFb, Bool.and_eq_true] at h
+    simp only [Action.LitWF]
+    exact ⟨opsLitWF_of_b ops h.1, actsLitWF_of_b cs h.2⟩
+theorem optLitWF_of_b : ∀ (a : Option Action), optLitWFb a = true → optLitWF a
+  | none, _ => by simp [optLitWF]
+  | some a, h => by
+    simp only [optLitWFb] at h
+    simp only [optLitWF]
+    exact Action.litWF_of_b a h
+theorem opsLitWF_of_b : ∀ (os : List Op), opsLitWFb os = true → opsLitWF os
+  | [], _ => by simp [opsLitWF]
+  | o :: os, h => by
+    simp only [opsLitWFb, Bool.and_eq_true] at h
+    simp only [opsLitWF]
+    exact ⟨Op.litWF_of_b o h.1, opsLitWF_of_b os h.2⟩
+theorem actsLitWF_of_b : ∀ (as : List Action), actsLitWFb as = true → actsLitWF as
+  | [], _ => by simp [actsLitWF]
+  | a :: as, h => by
+    simp only [actsLitWFb, Bool.and_eq_true] at h
+    simp only [actsLitWF]
+    exact ⟨Action.litWF_of_b a h.1, actsLitWF_of_b as h.2⟩
+end
 
 end Ytk.Pipeline
